@@ -167,7 +167,7 @@ def run(ctx, prefixes, what, configs=None):
     quick = [("A", 2, 1, 1), ("B", 2, 0, 2)] if ctx.quick() else [("A", 2, 1, 2), ("B", 3, 0, 2), ("D", 2, 1, 1)]
     model_checks(ctx, mod, quick, [("A", "NoSyncForDisabled", "TRUE", "FALSE"), ("B", "NeverDiscardStrict", "FALSE", "TRUE")])
     cases = []
-    per = ctx.pick(40, 400)
+    per = ctx.pick(30, 400)
     for cfg in sorted(configs or [c for c in cfgs if c not in rcfgs]):
         for b in gen(ctx, mod, cfg, per, ctx.pick(45, 70), asis=asis_env):
             cases.append({"config": cfg, "hooks": cfgs[cfg], "steps": b})
